@@ -16,6 +16,7 @@ import (
 	"strconv"
 	"strings"
 	"sync"
+	"syscall"
 	"time"
 
 	"verifharness/vh"
@@ -164,6 +165,44 @@ func execCase(c Case) (res runResult) {
 	case <-time.After(budget(len(c.Input))):
 		return runResult{Outcome: Outcome{Verdict: "hang", Elapsed: budget(len(c.Input))}}
 	}
+}
+
+// execCaseConfirm is the watchdog of the confirmation pass (one case, alone in a fresh child): the
+// case counts as hung only when the process has *consumed* the budget in CPU time, or has not
+// answered within five times the budget of wall time; a starved machine does not make a hang.
+func execCaseConfirm(c Case) (res runResult) {
+	done := make(chan runResult, 1)
+	cpu0 := processCPU()
+	t0 := time.Now()
+	go func() {
+		rd := newSchedReader(c.Input, c.Sched)
+		o := runDecoder(c.Format, c.Opts, rd)
+		done <- runResult{o, rd.Delivered}
+	}()
+	b := budget(len(c.Input))
+	tick := time.NewTicker(50 * time.Millisecond)
+	defer tick.Stop()
+	for {
+		select {
+		case r := <-done:
+			if r.Elapsed > b && processCPU()-cpu0 >= b { // finished, but only after burning the budget
+				return runResult{Outcome: Outcome{Verdict: "hang", Elapsed: r.Elapsed}}
+			}
+			return r
+		case <-tick.C:
+			if wall := time.Since(t0); wall > b && (processCPU()-cpu0 >= b || wall > 5*b) {
+				return runResult{Outcome: Outcome{Verdict: "hang", Elapsed: wall}}
+			}
+		}
+	}
+}
+
+func processCPU() time.Duration {
+	var ru syscall.Rusage
+	if syscall.Getrusage(syscall.RUSAGE_SELF, &ru) != nil {
+		return 0
+	}
+	return time.Duration(ru.Utime.Nano() + ru.Stime.Nano())
 }
 
 // ---------------------------------------------------------------- violations and known findings
